@@ -17,6 +17,10 @@ CHECKS = {
     text="Pins.tla model-checked exhaustively (3 keys, 2 backends, Expires in {absent, >T, 2^31-1}, clock to 6 (quick) / 8 (thorough): Honoured, Forgotten, Terminated, Purged; the pinned re-arming rule is shown to violate Purged). "
          "TLC-sampled histories and random histories over 1-200 dialogs are executed in real time on a real DialogBasedBackend; TLC judges each lookup and the set of remembered keys with the code's clock bracketed by two readings.",
     note=TB + "time.Now() lies inside the bracket of each call; outcomes inside the ambiguity window are not judged; reads DialogBasedBackend fields in-package.", ref="5/C15"),
+ "C18": dict(cat="model_checking", tech="TLA+ StaticOps spec: TLC checks the operational three-phase lookup against the declarative precedence for every table/host of a bounded universe, emits them, and judges the answers of the real PreConfigRoute (trace validation)",
+    text="Exhaustive over all route tables of up to 3 (quick) / 4 (thorough) entries over 7 patterns x 8 hosts: TLC proves Lookup admissible w.r.t. the declarative precedence and regex-translation = glob; every pair is then executed on real PreConfigRoute objects built from YAML "
+         "(50 repeats x 3 objects), plus random larger tables; TLC judges stability, precedence and next-hop port of every answer.",
+    note=TB + "pattern alphabet restricted to letters, digits, '.', '*', '-' (property domain).", ref="5/C18"),
 }
 NA_REASON = "check not built yet (work in progress; see DESIGN.md section 9)"
 
